@@ -267,6 +267,9 @@ func GetOriginalBinarySize(binaryPath string) (int64, error) {
 
 	// Calculate original size
 	configLen := binary.LittleEndian.Uint64(footer[:8])
+	if configLen > uint64(fileSize-FooterSize) {
+		return 0, ErrConfigTooLarge
+	}
 	return fileSize - FooterSize - int64(configLen), nil
 }
 
